@@ -57,11 +57,30 @@ type encEntry struct {
 	URI  string // as written into the XML attribute
 }
 
+// nURIForms: the spellings uriForm knows.
+const nURIForms = 13
+
 // uriForm renders the container-root-relative URI of an item in one of the
-// spellings a producer may use (never touching which resource it names).
+// spellings a producer may use (never touching which resource it names):
+// percent-encoded as a URI reference (forms 0-7: as is, letter case, "./", "/",
+// dot segments), the archive member name copied verbatim (8-10, 12: what
+// producers that treat CipherReference as a file name write; for names with
+// '%', '#', '[' ... this is not a well-formed URI reference), and escaped like
+// a URI component per segment (11).
 func uriForm(r *hx.Rng, e *Epub, item int, form int) string {
-	u := hrefEsc(e.Base + e.Items[item].Path)
-	switch form % 8 {
+	raw := e.Base + e.Items[item].Path
+	u := hrefEsc(raw)
+	switch form % nURIForms {
+	case 8:
+		return raw
+	case 9:
+		return "./" + raw
+	case 10:
+		return "/" + raw
+	case 11:
+		return hrefEscAll(raw)
+	case 12:
+		return mixCase(r, raw)
 	case 6:
 		return "/" + u
 	case 7:
@@ -307,7 +326,7 @@ func (s drmSpec) variant(r *hx.Rng, e *Epub) drmSpec {
 	v.Entries = append([]encEntry(nil), s.Entries...)
 	hx.Shuffle(r, v.Entries)
 	for i := range v.Entries {
-		v.Entries[i].URI = uriForm(r, e, v.Entries[i].Item, r.Intn(8))
+		v.Entries[i].URI = uriForm(r, e, v.Entries[i].Item, r.Intn(nURIForms))
 	}
 	return v
 }
@@ -327,7 +346,12 @@ func pickAlgo(r *hx.Rng, class int) string {
 func RunDRM(c *hx.Ctx, idx int, verbose bool) {
 	r := hx.NewRng(c.Seed).Fork(0xD000 + uint64(idx))
 	token := fmt.Sprintf("tokE%dq%04x", idx, r.Intn(1<<16))
-	e := genEpub(r, token)
+	// file names: per block of ten EPUBs (one per scenario) conventional only,
+	// all awkward (URI delimiters / stray escapes in chapter and font names),
+	// one in four awkward
+	awk := []int{0, 4, 1}[(idx/10)%3]
+	e := genEpubNames(r, token, awk)
+	c.Count(fmt.Sprintf("drm-names:awkward=%d/4", awk))
 	dir := filepath.Join(c.OutDir, "drm")
 	os.MkdirAll(dir, 0o755)
 	sub := 0
@@ -359,7 +383,7 @@ func RunDRM(c *hx.Ctx, idx int, verbose bool) {
 		}
 	}
 	entry := func(item int, algo string) encEntry {
-		return encEntry{Algo: algo, Item: item, URI: uriForm(r, e, item, r.Intn(8))}
+		return encEntry{Algo: algo, Item: item, URI: uriForm(r, e, item, r.Intn(nURIForms))}
 	}
 	scenario := idx % 10
 	c.Count(fmt.Sprintf("drm-scenario:%d", scenario))
@@ -449,7 +473,7 @@ func RunDRM(c *hx.Ctx, idx int, verbose bool) {
 	case 9: // one content document, every algorithm, every URI form
 		item := hx.Pick(r, contentIdx)
 		for _, a := range append(append(append([]string(nil), obfAlgos...), aesAlgos...), unknownAlgos...) {
-			for form := 0; form < 8; form++ {
+			for form := 0; form < nURIForms; form++ {
 				if !c.Thorough() && form%2 == 1 && !isObfAlgo(a) {
 					continue
 				}
@@ -484,7 +508,9 @@ func drmUnitOps(c *hx.Ctx) {
 		a := sb.String()
 		c.Op("c20.obf "+hx.HexS(a), fmt.Sprint(epubdoc.VerifIsFontObfuscation(a)))
 	}
-	uris := []string{"OEBPS/ch1.xhtml", "OEBPS/CH1.XHTML", "ch.html", "ch.htm", "a.xml", "toc.ncx", "content.opf", "s.css", "S.CSS", "f.otf", "f.ttf", "img.png", "", ".xhtml", "xhtml", "a.xhtml.bak", "a.xhtml/", "a.xhtml#f", "a%2Exhtml", "./OEBPS/ch%201.xhtml", "a.HtMl", "a.xht", "a.svg", "a.js", "a.htmlx", "a.xhtm", "xml", ".css"}
+	uris := []string{"OEBPS/ch1.xhtml", "OEBPS/CH1.XHTML", "ch.html", "ch.htm", "a.xml", "toc.ncx", "content.opf", "s.css", "S.CSS", "f.otf", "f.ttf", "img.png", "", ".xhtml", "xhtml", "a.xhtml.bak", "a.xhtml/", "a.xhtml#f", "a%2Exhtml", "./OEBPS/ch%201.xhtml", "a.HtMl", "a.xht", "a.svg", "a.js", "a.htmlx", "a.xhtm", "xml", ".css",
+		"OEBPS/100%.xhtml", "OEBPS/50% off/ch1.html", "%zz.htm", "ch#1.xhtml", "No. #2.html", "part:1/ch.xhtml", "a:b.xhtml", "why?.xhtml", "ch[1].htm", "[1]/c.xhtml", "Q&A.xhtml",
+		"OEBPS/100%25.xhtml", "ch%231.xhtml", "%.css", "a b.xhtml", "{x}^`q`.html", "fonts/100% bold.otf", "f#1.ttf"}
 	for _, u := range uris {
 		c.Op("c20.content "+hx.HexS(u), fmt.Sprint(epubdoc.VerifIsContentFile(u)))
 		c.Case("content:"+u, epubdoc.VerifIsContentFile(u))
